@@ -704,7 +704,7 @@ def _ops_from_decisions(decisions):
     return [list(map(str, d)) for d in decisions]
 
 
-def hangs(name, ops, xsd_check=True, limit=5.0):
+def hangs(name, ops, xsd_check=True, limit=30.0):
     """does executing ops on the real code exceed the time limit?"""
     import signal
 
